@@ -4,12 +4,60 @@ import time
 from fractions import Fraction
 import z3
 
-STATS = {'queries': 0, 'unsat': 0, 'sat': 0, 'unknown': 0, 'solver_s': 0.0}
+STATS = {'queries': 0, 'unsat': 0, 'sat': 0, 'unknown': 0, 'solver_s': 0.0, 'xcheck': 0, 'xcheck_disagree': 0, 'xcheck_other_unknown': 0}
+XDISAGREE = []
 
 
 def reset_stats():
     for k in STATS:
         STATS[k] = 0 if k != 'solver_s' else 0.0
+    del XDISAGREE[:]
+
+
+def xcheck_rate():
+    import os
+    if os.environ.get('VERIF_XCHECK'):
+        return int(os.environ['VERIF_XCHECK'])
+    return 20 if os.environ.get('VERIF_TIER') == 'thorough' else 100   # one query in N
+
+
+def maybe_cross_check(s, verdict):
+    """re-run a deterministic sample of the queries on z3 4.8.12 and (quantifier-free ones) on cvc5"""
+    import hashlib, subprocess, tempfile, os
+    n = xcheck_rate()
+    if n <= 0:
+        return
+    smt2 = s.to_smt2()
+    if int(hashlib.md5(smt2.encode()).hexdigest()[:8], 16) % n:
+        return
+    STATS['xcheck'] += 1
+    text = '(set-logic ALL)\n' + smt2
+    fd, path = tempfile.mkstemp(suffix='.smt2')
+    os.write(fd, text.encode())
+    os.close(fd)
+    try:
+        solvers = [('z3-4.8.12', ['/usr/bin/z3', '-T:20', path])]
+        if 'forall' not in smt2 and 'exists' not in smt2:
+            solvers.append(('cvc5', ['cvc5', '--lang', 'smt2', '--tlimit=20000', path]))
+        for name, cmd in solvers:
+            try:
+                p = subprocess.run(cmd, capture_output=True, text=True, timeout=30)
+                out = p.stdout + p.stderr
+                first = [l.strip() for l in p.stdout.split('\n') if l.strip()]
+                v = 'error' if '(error' in out else (first[0] if first else 'none')
+            except subprocess.TimeoutExpired:
+                v = 'timeout'
+            if v in ('sat', 'unsat'):
+                if v != verdict:
+                    STATS['xcheck_disagree'] += 1
+                    XDISAGREE.append({'solver': name, 'theirs': v, 'ours': verdict, 'smt2': text[:4000]})
+                    d = os.path.join(os.path.dirname(os.path.dirname(os.path.abspath(__file__))), '.work', 'xdisagree')
+                    os.makedirs(d, exist_ok=True)
+                    open(os.path.join(d, '%s-%s.smt2' % (name, hashlib.md5(text.encode()).hexdigest()[:10])), 'w').write('; ours=%s theirs=%s\n' % (verdict, v) + text)
+            else:
+                STATS['xcheck_other_unknown'] += 1
+    finally:
+        os.unlink(path)
 
 
 def to_frac(v):
@@ -36,6 +84,8 @@ def query(formulas, timeout_ms=10000, want_vars=None, nice=True, keep_smt2=False
     r = s.check()
     STATS['solver_s'] += time.time() - t
     STATS['queries'] += 1
+    if r in (z3.unsat, z3.sat):
+        maybe_cross_check(s, 'unsat' if r == z3.unsat else 'sat')
     if r == z3.unsat:
         STATS['unsat'] += 1
         return 'unsat', None, smt2
